@@ -500,3 +500,126 @@ def points_and_mapping_rules(repo, res, RULE="G4-PROTOCOL"):
     except Undecided as x:
         raise AnalysisError("LaneletNetwork.map_obstacles_to_lanelets: %s" % x)
     res.check(RULE, "map_obstacles_to_lanelets: every lanelet's own non-empty answer, keyed by its id", bad is None, net_cls.mod, fn, "map_obstacles_to_lanelets %s" % bad, "the obstacle map is not built from every lanelet's own answer", qualname="LaneletNetwork.map_obstacles_to_lanelets")
+
+
+# --------------------------------------------------------------------------- polygon: predicate vs exported geometry
+def polygon_rules(repo, res, RULE="G1-SHAPE-AGREE"):
+    """Polygon: the planar geometry it exports is the polygon of its vertex ring, and contains_point answers, for
+    every position of the point relative to that ring and to its bounding box, what the closed ring answers.
+
+    The constructor and contains_point are evaluated with the vertex array as a symbol; numpy and shapely are
+    uninterpreted, except that comparisons of the point with min / max of the vertices and the geometry's predicates
+    are answered by the case at hand (a table of truths, one row per case)."""
+    from ..strdom import ClassRef, PyFunc, Sym
+
+    SHP = "commonroad/geometry/shape.py"
+    poly = repo.cls(SHP, "Polygon")
+    cp = poly.methods.get("contains_point")
+    if cp is None:
+        raise AnalysisError("Polygon.contains_point missing")
+    V, P = Sym("vertices", "num"), Sym("point", "num")
+    RING = {"numpy.array", "numpy.asarray", ".coords", ".exterior", "shapely.geometry.polygon.orient", "shapely.geometry.geometry.polygon.orient"}
+
+    def polygon_of_ring(v):
+        return isinstance(v, Ctor) and v.name.split(".")[-1] == "Polygon" and v.name.split(".")[0] == "shapely" and len(v.args) == 1 and ring(list(v.args.values())[0])
+
+    def ring(v):
+        """the given vertex array, or the same ring re-read from the geometry built from it (re-oriented, closed)"""
+        if v is V:
+            return True
+        if isinstance(v, Ctor) and v.name in RING and v.args:
+            inner = list(v.args.values())[0]
+            return ring(inner) or polygon_of_ring(inner)
+        return False
+
+    def corner(v):
+        if isinstance(v, Ctor) and v.name in ("numpy.min", "numpy.amin", "numpy.max", "numpy.amax", ".min()", ".max()") and ring(list(v.args.values())[0]):
+            rest = [x for k, x in list(v.args.items())[1:]]
+            if rest == [0]:
+                return "lo" if "min" in v.name else "hi"
+        return None
+
+    # cases: value of (lo, p, hi) per coordinate, truth of the closed geometry and of its interior for the point
+    CASES = [
+        ("a point inside the ring", [(0, 1, 2), (0, 1, 2)], True, True, True),
+        ("a vertex with the smallest x (on the lower edge of the bounding box)", [(0, 0, 2), (0, 1, 2)], True, False, True),
+        ("a vertex with the largest y (on the upper edge of the bounding box)", [(0, 1, 2), (0, 2, 2)], True, False, True),
+        ("a point inside the bounding box and outside the ring", [(0, 1, 2), (0, 1, 2)], False, False, False),
+        ("a point left of the bounding box", [(0, -1, 2), (0, 1, 2)], False, False, False),
+        ("a point above the bounding box", [(0, 1, 2), (0, 3, 2)], False, False, False),
+    ]
+    import operator
+
+    OPS = {"less_equal": operator.le, "less": operator.lt, "greater_equal": operator.ge, "greater": operator.gt, "<=": operator.le, "<": operator.lt, ">=": operator.ge, ">": operator.gt}
+
+    def build():
+        ev = evaluator(repo)
+        ev.instantiate = {"Polygon"}
+        ev.assume_valid = True
+        o = ev.apply(ClassRef(poly), [V], {}, poly.node, poly.mod)
+        if not isinstance(o, Obj):
+            raise AnalysisError("Polygon(vertices) could not be evaluated")
+        return ev, o
+
+    # ---- the exported geometry
+    so = repo.find_prop(poly, "shapely_object")
+    try:
+        ev, o = build()
+        g = ev.getattr(o, "shapely_object", poly.node, poly.mod)
+        bad = None if polygon_of_ring(g) else "is %s" % show(g)
+    except _Raise as x:
+        bad = "raises %s" % x.what
+    except Undecided as x:
+        raise AnalysisError("Polygon.shapely_object: %s" % x)
+    anchor = (so[1].get("get") if so and so[1] else None) or poly.methods["__init__"]
+    res.check(RULE, "Polygon.shapely_object: the polygon of the vertex ring", bad is None, poly.mod, anchor, "Polygon.shapely_object %s" % bad, "the exported geometry is not built from the polygon's vertices", qualname="Polygon.shapely_object")
+
+    # ---- the predicate
+    for label, coords, closed_truth, open_truth, want in CASES:
+        ev, o = build()
+
+        def side(v):
+            c = corner(v)
+            if c is not None:
+                return [t[0] if c == "lo" else t[2] for t in coords]
+            if v is P:
+                return [t[1] for t in coords]
+            raise Undecided("comparison with %s" % show(v))
+
+        def cmp(op):
+            def f(a, k):
+                out = ListV([OPS[op](x, y) for x, y in zip(side(a[0]), side(a[1]))])
+                out.ext_types = {"ndarray"}
+                return out
+
+            return f
+
+        for nm in ("less_equal", "less", "greater_equal", "greater"):
+            ev.model_calls["numpy.%s" % nm] = cmp(nm)
+        ev.model_calls["numpy.all"] = lambda a, k: all(a[0].items) if isinstance(a[0], ListV) else (_ for _ in ()).throw(Undecided("numpy.all of %s" % show(a[0])))
+        ev.model_calls["numpy.any"] = lambda a, k: any(a[0].items) if isinstance(a[0], ListV) else (_ for _ in ()).throw(Undecided("numpy.any of %s" % show(a[0])))
+
+        def predicate(truth):
+            def f(a, k):
+                recv, arg = a[0], (a[1] if len(a) > 1 else None)
+                if not polygon_of_ring(recv):
+                    raise Undecided("geometry predicate on %s" % show(recv))
+                if not (isinstance(arg, Ctor) and arg.name.split(".")[-1] == "Point" and list(arg.args.values()) == [P]):
+                    raise Undecided("geometry predicate with %s" % show(arg))
+                return truth
+
+            return f
+
+        for nm, truth in (("intersects", closed_truth), ("covers", closed_truth), ("contains", open_truth)):
+            ev.model_calls[".%s()" % nm] = predicate(truth)
+        bad = None
+        try:
+            r = ev.call_fn(ev.bind(cp, poly, o), [P], {}, cp)
+            got = ev.truth(r, cp)
+            if got is not want:
+                bad = "answers %s, the closed ring %s it" % (got, "contains" if want else "does not contain")
+        except _Raise as x:
+            bad = "raises %s" % x.what
+        except Undecided as x:
+            raise AnalysisError("Polygon.contains_point [%s]: %s" % (label, x))
+        res.check(RULE, "Polygon.contains_point [%s]: the answer of the closed vertex ring" % label, bad is None, poly.mod, cp, "Polygon.contains_point [%s] %s" % (label, bad), "the containment predicate and the exported geometry of a polygon do not denote the same set (a bounding-box pre-filter that is not the box of the vertices, or an open predicate)", qualname="Polygon.contains_point")
